@@ -1,5 +1,6 @@
 import SV.Wire
 import SV.Spec.C16
+import SV.Spec.C16Exit
 open SV SV.Wire SV.Model.C16 SV.Spec.C16
 
 def encStr (s : Str) : Json := .arr (s.map jnat)
@@ -116,6 +117,18 @@ def decAct (j : Json) : Except String Act :=
   | .str _ => pure .main
   | j => do return .work (← asNat j)
 
+def decPAct (j : Json) : Except String PAct :=
+  match j with
+  | .str _ => pure (.base .main)
+  | .num _ _ => do return .base (.work (← asNat j))
+  | j =>
+    match optField j "join" with
+    | .null => do return .exit (← asList asNat (← field j "exit"))
+    | w => do return .join (← asBool w)
+
+def encDisk (d : Disk) : Json :=
+  jobj [("chunks", .arr (d.chunks.map encChunk)), ("torn", .bool d.torn), ("closedDoc", .bool d.closedDoc)]
+
 def decCrash (j : Json) : Except String (Option (Nat × Nat)) :=
   match j with
   | .null => pure none
@@ -144,6 +157,32 @@ def handle : Handler := fun op a => do
                  ("pc_left", jnat s.pc.length),
                  ("expected", .arr (idx.map fun i => .arr ((expectedFile (cfg i).fmt seed (deliveredTo i evs crash)).map encChunk))),
                  ("own_queues", .bool (idx.all fun i => idx.all fun j => i == j || (cfg i).queue != (cfg j).queue))]
+  | "exit_run" =>
+    -- the process model: puts / writer steps / joins / exit, under the given ordering (`variant`)
+    let v ← decVariant (← field a "variant")
+    let fs ← asList decFmt (← field a "fmts")
+    let custom ← asList asBool (← field a "custom")
+    let cfg := cfgOf fs
+    let owner : Nat → Owner := fun i => if custom.getD i false then .option else .reportDir
+    let n := fs.length
+    let seed ← asOpt asNat (optField a "seed")
+    let evs ← asList decEv (← field a "events")
+    let crash ← decCrash (optField a "crash")
+    let sched ← asList decPAct (← field a "sched")
+    let p := prun v cfg owner n sched (PSys.init (mainProgram n seed evs crash))
+    let idx := List.range n
+    return jobj [("exited", .bool p.exited), ("joined", jnat p.joined), ("pc_left", jnat p.sys.pc.length),
+                 ("terminated", .bool (p.exited && idx.all fun i => (p.sys.ws i).done || p.dead i)),
+                 ("writers", .arr (idx.map fun i =>
+                    jobj [("disk", encDisk (diskOf cfg p i)), ("done", .bool (p.sys.ws i).done), ("dead", .bool (p.dead i)),
+                          ("closed", .bool (p.closed i)),
+                          ("ok", .bool (finalReportOK (cfg i).fmt seed (deliveredTo i evs crash) (diskOf cfg p i)))]))]
+  | "judge_final" =>
+    let f ← decFmt (← field a "fmt")
+    let seed ← asOpt asNat (optField a "seed")
+    let delivered ← asList decEv (← field a "delivered")
+    let chunks ← asList decChunk (← field a "chunks")
+    return .bool (finalReportOK f seed delivered ⟨chunks, ← asBool (← field a "torn"), ← asBool (← field a "closedDoc")⟩)
   | "judge_report" =>
     let f ← decFmt (← field a "fmt")
     let seed ← asOpt asNat (optField a "seed")
